@@ -150,6 +150,47 @@ func ruleT6(c *Ctx) {
 			}
 		}
 	}
+	// the same rows written as read-only lookup tables: TABLE[mem.BaseReg] → r/m, TABLE[mem.Scale] → ss
+	for _, t := range readOnlyMapTables(c, p, fd) {
+		sel, ok := ast.Unparen(t.Index.Index).(*ast.SelectorExpr)
+		if !ok {
+			continue
+		}
+		switch sel.Sel.Name {
+		case "Scale":
+			want := map[int64]int64{1: 0x00, 2: 0x40, 4: 0x80, 8: 0xC0}
+			for _, kv := range t.Rows {
+				k, ok1 := constInt(info, kv.Key)
+				v, ok2 := constInt(info, kv.Value)
+				nsc++
+				key := fmt.Sprintf("calculateModRM|scale %d", k)
+				if !ok1 || !ok2 {
+					c.fail("T6", key, c.L.Pos(kv.Pos()), "undecided: non-constant scale row")
+					continue
+				}
+				w, known := want[k]
+				c.check(known && w == v, "T6", key, c.L.Pos(kv.Pos()), fmt.Sprintf("scale ×%d is encoded ss=%#02x, SDM table 2-3 says %#02x", k, v, w))
+			}
+		case "BaseReg":
+			for _, kv := range t.Rows {
+				base, ok1 := constStr(info, kv.Key)
+				rmv, ok2 := constInt(info, kv.Value)
+				if !ok1 || !ok2 {
+					c.fail("T6", "calculateModRM|rm row", c.L.Pos(kv.Pos()), "undecided: non-constant r/m row")
+					continue
+				}
+				if strings.HasPrefix(base, "E") {
+					n32++
+					w, known := rm32[base]
+					c.check(known && w == rmv, "T6", fmt.Sprintf("calculateModRM|32-bit [%s]", base), c.L.Pos(kv.Pos()), fmt.Sprintf("[%s] is encoded r/m=%03b, SDM table 2-2 says %03b", base, rmv, w))
+				} else {
+					n16++
+					w, known := rm16[[2]string{base, ""}]
+					c.check(known && w == rmv, "T6", fmt.Sprintf("calculateModRM|16-bit [%s+]", base), c.L.Pos(kv.Pos()), fmt.Sprintf("[%s] is encoded r/m=%03b, SDM table 2-1 says %03b", base, rmv, w))
+				}
+			}
+		}
+	}
 	c.check(n16 >= 11 && n32 >= 9 && nsc == 4, "T6", "calculateModRM|table sizes", c.L.Pos(fd.Pos()), fmt.Sprintf("%d 16-bit rows, %d 32-bit rows, %d scale rows", n16, n32, nsc))
 
 	// mod constants: every constant assigned to `mod` is 00/01/10 (<<6)
@@ -816,6 +857,14 @@ func ruleF1(c *Ctx) {
 			key := fmt.Sprintf("%s|getImmediateValue#%d", shortName(f), per)
 			pos := c.L.Pos(instrPos(ci))
 			sizeOK := isFieldLoad(args[1], "Size") && dependsOnFieldLoad(args[1], "Immediate")
+			if !sizeOK && isFieldLoad(args[1], "Size") {
+				// imm.Size where imm is a parameter every caller binds to encoding.Immediate
+				if u, ok := args[1].(*ssa.UnOp); ok {
+					if fa, ok := u.X.(*ssa.FieldAddr); ok {
+						sizeOK = c.holdsThroughParams(fa.X, func(v ssa.Value) bool { return isFieldLoad(v, "Immediate") }, 0)
+					}
+				}
+			}
 			c.check(sizeOK, "F1", key+"|width", pos, "the width must be encoding.Immediate.Size of the encoding that was selected; found "+valName(args[1]))
 			idxOK := false
 			if u, ok := args[0].(*ssa.UnOp); ok && u.Op == token.MUL {
